@@ -361,6 +361,39 @@ def proof_coverage(res, b, extra_trusted=()):
     res.cov["files"] = b["deps"]
     if b["gen_fail"]:
         res.cov["untranslated"] = b["gen_fail"]
+    coqchk_coverage(res, b)
+
+
+def coqchk(pid, timeout=2400):
+    """independent re-check (coqchk) of props/<pid>.vo and everything it depends on; returns (ok, axioms, tail)"""
+    cmd = ["coqchk", "-silent", "-o", "-R", ".", "VV", "VV.props.%s" % pid]
+    try:
+        p = subprocess.run(cmd, cwd=COQ, capture_output=True, text=True, timeout=timeout)
+    except subprocess.TimeoutExpired:
+        return None, [], "coqchk timed out"
+    out = p.stdout + p.stderr
+    axioms = []
+    m = re.search(r"\* Axioms:\s*(.*?)(?=\n\* |\Z)", out, re.S)
+    if m:
+        axioms = [a.strip() for a in m.group(1).split("\n") if a.strip()]
+    return p.returncode == 0, axioms, out[-1500:]
+
+
+def coqchk_coverage(res, b):
+    """thorough tier: add the independent checker's verdict and the axioms it lists to the evidence; a rejection
+    is reported as a broken proof obligation"""
+    if res.tier != "thorough" or not b["ok"]:
+        return
+    with Lock():      # the build lock: nobody rewrites a .vo while the checker reads it
+        ok, axioms, tail = coqchk(res.pid)
+    res.cov["coqchk"] = {"cmd": "cd /verif/coq && coqchk -silent -o -R . VV VV.props.%s" % res.pid,
+                         "accepted": ok, "axioms": axioms or ["<none>"]}
+    res.cov["trusted_base"] = list(res.cov.get("trusted_base", [])) + [
+        "coqchk (independent checker) on props/%s.vo and its dependencies: %s; axioms it lists: %s"
+        % (res.pid, "accepted" if ok else "NOT accepted" if ok is False else "timed out", ", ".join(axioms) or "<none>")]
+    if ok is False:
+        res.violation({"machinery": "coqchk"}, {"tail": tail}, "coqchk rejects props/%s.vo or a dependency: %s" % (res.pid, tail[-300:]),
+                      no_input=True)
 
 
 def report_broken_build(res, b, searcher=None):
